@@ -32,7 +32,7 @@ CLAIMED = {
    technique="Kani full-domain harnesses on the two early-exit conditions of visit_dir (extracted each run) + Verus contract on the real parse_limit",
    text="Both LIMIT early-exit conditions (directory loop, archive-member loop) are proved to be exactly "
         "!buffered && limit > 0 && found >= limit for all inputs: never taken for ordered/aggregated output or limit 0. The real parse_limit: absent LIMIT = 0 = unlimited, `limit N` = the u32 N denotes or an error (Verus). An entry is counted in `found` exactly once iff there is no WHERE or its WHERE holds (prologue of check_file, all inputs); the assembled Query carries the parsed limit, 0 staying unlimited except for a constant-only select list (Parser::parse tail, all outcomes).",
-   note="Trusted: TopN (BTreeMap: out of reach) - so `order by .. limit N` keeping the first N keys is NOT verified -, is_buffered definition."),
+   note="`order by .. limit N`: the real TopN (verbatim on array-backed stand-ins for BTreeMap / Vec) is proved for every assignment of keys (4 values: all tie patterns) to 3 rows and every limit 0..3 to keep exactly min(N, M) distinct rows whose key sequence is the first N keys of the sorted list, ties at the cut either way; it orders by Ord alone (a key type whose derived PartialOrd disagrees, like Criteria, is handled). Bounded: 3 rows. Trusted: the real B-tree, is_buffered definition."),
  "C07": dict(engine="V+F", ref="5/C07",
    technique="Verus contracts on the real get_buffer_sum (loop invariant, unbounded rows) and Expr::has_aggregate_function (recursive spec, any depth / width); Kani on the AVG division, on get_variance / get_mean / get_buffer_sum verbatim on a shim row world (powi stubbed), on the divisor fragments, on the prologue and column loops of check_file and on the ungrouped aggregate output block (string-free shim worlds)",
    text="SUM: the real get_buffer_sum, extracted verbatim, is proved to return the mathematical sum over any number of buffered rows of the "
@@ -57,7 +57,7 @@ CLAIMED = {
    technique="Kani on the verbatim bodies of Criteria::cmp / cmp_at (shim receiver types), on the positional / DESC arms of parse_order_by and on is_numeric_field over the whole Field enum; Verus contract on the real parse_order_by",
    text="Criteria::cmp is proved to be the lexicographic order over <= 3 keys and cmp_at to dispatch numeric / date / string keys and to reverse for desc, for all per-key outcomes; every documented integer column is proved numeric, date columns chronological, text columns string-ordered over the whole Field enum; a positional key k selects column k or is rejected. On the real parse_order_by: key list and direction list have equal length on every successful parse, positional keys are "
         "proved in range before indexing and `desc` without a preceding key is rejected (no underflow), for every token vector. Verus, key expressions of any depth: a key is compared numerically iff a numeric column or function occurs in it on either side of an operator. Per-key comparison: two sizes exactly (below 2^53), negative / fractional expression values as real numbers; sort key i of a buffered row is the value of ORDER BY expression i (check_file loop on a shim world).",
-   note="Not covered: that buffered rows come out in Criteria order and form a permutation (TopN/BTreeMap out of reach), date key comparison (chrono)."),
+   note="The ORDER BY buffer itself: the real TopN (struct + impl verbatim, std BTreeMap / Vec replaced by array-backed stand-ins with the same method names) is proved, for every assignment of keys to 3 rows, to emit the rows in non-decreasing key order, each once, equal keys in insertion order (bounded: 3 rows). Not covered: larger buffers, the real B-tree, date key comparison (chrono)."),
 
  "C12": dict(engine="F+K", ref="5/C12",
    technique="Kani harnesses on the glob and LIKE escape tables (alternation literal + arm table) extracted from glob.rs each run, exhaustive over printable ASCII; the whole String arm of conforms verbatim on a shim world with an oracle Regex (bounded witnesses)",
